@@ -9,11 +9,11 @@ open Subj (Action Call upd disposedExn upd_apply)
 variable {α : Type}
 
 /-- States reachable by `VirtualTimeScheduler.start()` from the scheduled history. -/
-inductive Reach (cfg : Cfg) (calls : List (Nat × Call α)) : St α → Prop
+inductive Reach (cfg : Cfg α) (calls : List (Nat × Call α)) : St α → Prop
   | init : Reach cfg calls (schedule calls)
   | step {st : St α} : Reach cfg calls st → Reach cfg calls (step cfg st)
 
-theorem steps_reach {cfg : Cfg} {calls : List (Nat × Call α)} (f : Nat) {st : St α} (h : Reach cfg calls st) :
+theorem steps_reach {cfg : Cfg α} {calls : List (Nat × Call α)} (f : Nat) {st : St α} (h : Reach cfg calls st) :
     Reach cfg calls (steps cfg f st) := by
   induction f generalizing st with
   | zero => exact h
@@ -23,12 +23,12 @@ theorem steps_reach {cfg : Cfg} {calls : List (Nat × Call α)} (f : Nat) {st : 
     · exact h
     · exact ih h.step
 
-theorem run_reach (cfg : Cfg) (fuel : Nat) (calls : List (Nat × Call α)) : Reach cfg calls (run cfg fuel calls) :=
+theorem run_reach (cfg : Cfg α) (fuel : Nat) (calls : List (Nat × Call α)) : Reach cfg calls (run cfg fuel calls) :=
   steps_reach fuel Reach.init
 
 /-! ## Safety invariant -/
 
-structure RInv (cfg : Cfg) (st : St α) : Prop where
+structure RInv (cfg : Cfg α) (st : St α) : Prop where
   sorted : Sorted st.allVals
   bounded : ∀ x ∈ st.allVals, x.1 ≤ st.lastNow
   lastNow_le : st.lastNow ≤ st.clock
@@ -87,13 +87,13 @@ theorem pushList_ind {P : St α → Prop} (j : Id) (ns : List (Notif α)) (st : 
     exact ih _ (fun st k hk hp => hstep st k (by simp [hk]) hp) (hstep st n (by simp) h)
 
 /-- Invariant + "nothing but the ScheduledObservers changed" (what the loops need to carry along). -/
-structure Keeps (cfg : Cfg) (st0 st : St α) : Prop where
+structure Keeps (cfg : Cfg α) (st0 st : St α) : Prop where
   inv : RInv cfg st
   seen : st.seen = st0.seen
   stopped : st.stopped = st0.stopped
   observers : st.observers = st0.observers
 
-theorem soPush_keeps {cfg : Cfg} {st0 st : St α} (i : Id) (n : Notif α) (h : Keeps cfg st0 st)
+theorem soPush_keeps {cfg : Cfg α} {st0 st : St α} (i : Id) (n : Notif α) (h : Keeps cfg st0 st)
     (hi : st.seen i = true) (hn : n.isTerminal = true → st.stopped = true) : Keeps cfg st0 (soPush st i n) := by
   obtain ⟨⟨a1,a2,a3,a4,a5,a6,a7,a8,a9,a10,a11,a12,a13⟩, b1, b2, b3⟩ := h
   unfold soPush
@@ -102,7 +102,7 @@ theorem soPush_keeps {cfg : Cfg} {st0 st : St α} (i : Id) (n : Notif α) (h : K
   · refine ⟨⟨?_,?_,?_,?_,?_,?_,?_,?_,?_,?_,?_,?_,?_⟩, ?_, ?_, ?_⟩
     rinv_crush
 
-theorem RInv.congr {cfg : Cfg} {st st' : St α} (h : RInv cfg st)
+theorem RInv.congr {cfg : Cfg α} {st st' : St α} (h : RInv cfg st)
     (e1 : st'.allVals = st.allVals) (e2 : st'.lastNow = st.lastNow) (e3 : st.clock ≤ st'.clock)
     (e4 : st'.disposed = st.disposed) (e5 : st'.queue = st.queue) (e6 : st'.faulted = st.faulted)
     (e7 : st'.fed = st.fed) (e8 : st'.soQueue = st.soQueue) (e9 : st'.enq = st.enq)
@@ -132,7 +132,7 @@ theorem ensureActive_frame (st : St α) (i : Id) :
   repeat' split
   all_goals simp
 
-theorem ensureActive_keeps {cfg : Cfg} {st0 st : St α} (i : Id) (h : Keeps cfg st0 st) :
+theorem ensureActive_keeps {cfg : Cfg α} {st0 st : St α} (i : Id) (h : Keeps cfg st0 st) :
     Keeps cfg st0 (ensureActive st i) := by
   have f := ensureActive_frame st i
   obtain ⟨hI, b1, b2, b3⟩ := h
@@ -141,9 +141,9 @@ theorem ensureActive_keeps {cfg : Cfg} {st0 st : St α} (i : Id) (h : Keeps cfg 
   exact ⟨hI.congr f1 f2 (by omega) f4 f5 f6 f7 f8 f9 f10 f11 f12 f13 f14 f15 f16 f17 f22 (fun _ h => f18 ▸ h) (fun h => f19.symm ▸ h),
     f11.trans b1, f16.trans b2, f10.trans b3⟩
 
-theorem Keeps.refl {cfg : Cfg} {st : St α} (h : RInv cfg st) : Keeps cfg st st := ⟨h, rfl, rfl, rfl⟩
+theorem Keeps.refl {cfg : Cfg α} {st : St α} (h : RInv cfg st) : Keeps cfg st st := ⟨h, rfl, rfl, rfl⟩
 
-theorem removableDispose_inv {cfg : Cfg} {st : St α} (i : Id) (h : RInv cfg st) (hi : st.seen i = true) :
+theorem removableDispose_inv {cfg : Cfg α} {st : St α} (i : Id) (h : RInv cfg st) (hi : st.seen i = true) :
     RInv cfg (removableDispose st i) := by
   obtain ⟨a1,a2,a3,a4,a5,a6,a7,a8,a9,a10,a11,a12,a13⟩ := h
   unfold removableDispose soDispose
@@ -152,7 +152,7 @@ theorem removableDispose_inv {cfg : Cfg} {st : St α} (i : Id) (h : RInv cfg st)
   all_goals refine ⟨?_,?_,?_,?_,?_,?_,?_,?_,?_,?_,?_,?_,?_⟩
   rinv_crush
 
-theorem sadDispose_inv {cfg : Cfg} {st : St α} (i : Id) (h : RInv cfg st) (hi : st.seen i = true) :
+theorem sadDispose_inv {cfg : Cfg α} {st : St α} (i : Id) (h : RInv cfg st) (hi : st.seen i = true) :
     RInv cfg (sadDispose st i) := by
   unfold sadDispose
   dsimp only
@@ -166,24 +166,24 @@ theorem sadDispose_inv {cfg : Cfg} {st : St α} (i : Id) (h : RInv cfg st) (hi :
     · exact removableDispose_inv i h' hi
     · exact h'
 
-theorem callback_inv {cfg : Cfg} {st : St α} (i : Id) (n : Notif α) (h : RInv cfg st) (hi : st.seen i = true) :
+theorem callback_inv {cfg : Cfg α} {st : St α} (i : Id) (n : Notif α) (h : RInv cfg st) (hi : st.seen i = true) :
     RInv cfg (callback st i n) := by
   obtain ⟨a1,a2,a3,a4,a5,a6,a7,a8,a9,a10,a11,a12,a13⟩ := h
   unfold callback
   refine ⟨?_,?_,?_,?_,?_,?_,?_,?_,?_,?_,?_,?_,?_⟩
   rinv_crush
 
-theorem subjDispose_inv {cfg : Cfg} {st : St α} (h : RInv cfg st) : RInv cfg (subjDispose st) := by
+theorem subjDispose_inv {cfg : Cfg α} {st : St α} (h : RInv cfg st) : RInv cfg (subjDispose st) := by
   obtain ⟨a1,a2,a3,a4,a5,a6,a7,a8,a9,a10,a11,a12,a13⟩ := h
   unfold subjDispose
   refine ⟨?_,?_,?_,?_,?_,?_,?_,?_,?_,?_,?_,?_,?_⟩
   rinv_crush
 
-theorem raiseTo_inv {cfg : Cfg} {st : St α} (who : Option Id) (e : Err) (h : RInv cfg st) : RInv cfg (raiseTo who e st) := by
+theorem raiseTo_inv {cfg : Cfg α} {st : St α} (who : Option Id) (e : Err) (h : RInv cfg st) : RInv cfg (raiseTo who e st) := by
   unfold raiseTo
   split <;> exact h.congr rfl rfl (Nat.le_refl _) rfl rfl rfl rfl rfl rfl rfl rfl rfl rfl rfl rfl rfl rfl rfl (fun _ h => h) (fun h => h)
 
-theorem doUnsub_inv {cfg : Cfg} {st : St α} (j : Id) (h : RInv cfg st) : RInv cfg (doUnsub st j) := by
+theorem doUnsub_inv {cfg : Cfg α} {st : St α} (j : Id) (h : RInv cfg st) : RInv cfg (doUnsub st j) := by
   unfold doUnsub
   split
   · rename_i hh
@@ -197,22 +197,22 @@ theorem doUnsub_inv {cfg : Cfg} {st : St α} (j : Id) (h : RInv cfg st) : RInv c
     rinv_crush
   · exact h
 
-theorem Keeps.trans {cfg : Cfg} {a b c : St α} (h1 : Keeps cfg a b) (h2 : Keeps cfg b c) : Keeps cfg a c :=
+theorem Keeps.trans {cfg : Cfg α} {a b c : St α} (h1 : Keeps cfg a b) (h2 : Keeps cfg b c) : Keeps cfg a c :=
   ⟨h2.inv, h2.seen.trans h1.seen, h2.stopped.trans h1.stopped, h2.observers.trans h1.observers⟩
 
-theorem pushList_keeps {cfg : Cfg} {st : St α} (j : Id) (ns : List (Notif α)) (h : RInv cfg st) (hj : st.seen j = true)
+theorem pushList_keeps {cfg : Cfg α} {st : St α} (j : Id) (ns : List (Notif α)) (h : RInv cfg st) (hj : st.seen j = true)
     (hn : ∀ n ∈ ns, n.isTerminal = false) : Keeps cfg st (pushList st j ns) := by
   apply pushList_ind (P := fun s => Keeps cfg st s) j ns st ?_ (Keeps.refl h)
   intro s n hmem hk
   exact soPush_keeps j n hk (by rw [hk.seen]; exact hj) (by intro ht; rw [hn n hmem] at ht; exact absurd ht (by simp))
 
-theorem finishSub_inv {cfg : Cfg} {st : St α} (j : Id) (h : RInv cfg st) (hj : st.seen j = true) :
+theorem finishSub_inv {cfg : Cfg α} {st : St α} (j : Id) (h : RInv cfg st) (hj : st.seen j = true) :
     RInv cfg { st with held := upd st.held j true, handle := upd st.handle j true } := by
   obtain ⟨a1,a2,a3,a4,a5,a6,a7,a8,a9,a10,a11,a12,a13⟩ := h
   refine ⟨?_,?_,?_,?_,?_,?_,?_,?_,?_,?_,?_,?_,?_⟩
   rinv_crush
 
-theorem subscribeCore_inv (cfg : Cfg) {st : St α} (j : Id) (h : RInv cfg st) (hseen : st.seen j = true)
+theorem subscribeCore_inv (cfg : Cfg α) {st : St α} (j : Id) (h : RInv cfg st) (hseen : st.seen j = true)
     (hjn : j ∉ st.observers) (hso : st.soStopped j = false) (hdisp : st.disposed = false) :
     RInv cfg (subscribeCore cfg st j) := by
   have hret := trim_of_retained h.sorted (h.retained hdisp) h.lastNow_le
@@ -239,7 +239,7 @@ theorem subscribeCore_inv (cfg : Cfg) {st : St α} (j : Id) (h : RInv cfg st) (h
   have k3 := ensureActive_keeps j k2
   exact finishSub_inv j k3.inv ((congrFun k3.seen j).trans hs3seen)
 
-theorem doSub_inv (cfg : Cfg) {st : St α} (who : Option Id) (j : Id) (h : RInv cfg st) :
+theorem doSub_inv (cfg : Cfg α) {st : St α} (who : Option Id) (j : Id) (h : RInv cfg st) :
     RInv cfg (doSub cfg st who j).1 := by
   unfold doSub
   split
@@ -267,7 +267,7 @@ theorem doSub_inv (cfg : Cfg) {st : St α} (who : Option Id) (j : Id) (h : RInv 
         rinv_crush
       exact subscribeCore_inv cfg j h2 (by simp) hjn hf.2.2.2.1 hdisp
 
-theorem adoDeliver_inv (cfg : Cfg) {st : St α} (i : Id) (n : Notif α) (h : RInv cfg st) (hi : st.seen i = true) :
+theorem adoDeliver_inv (cfg : Cfg α) {st : St α} (i : Id) (n : Notif α) (h : RInv cfg st) (hi : st.seen i = true) :
     RInv cfg (adoDeliver cfg st i n).1 := by
   unfold adoDeliver
   split
@@ -290,23 +290,23 @@ theorem sadDispose_seen (st : St α) (i : Id) : (sadDispose st i).seen = st.seen
   repeat' split
   all_goals rfl
 
-theorem adoDeliver_seen (cfg : Cfg) (st : St α) (i : Id) (n : Notif α) : (adoDeliver cfg st i n).1.seen = st.seen := by
+theorem adoDeliver_seen (cfg : Cfg α) (st : St α) (i : Id) (n : Notif α) : (adoDeliver cfg st i n).1.seen = st.seen := by
   unfold adoDeliver callback
   dsimp only
   repeat' split
   all_goals first | rfl | exact sadDispose_seen _ _
 
-theorem reactions_nohandle (cfg : Cfg) (st : St α) (i j : Id) : Task.handle j ∉ reactions cfg st i := by
+theorem reactions_nohandle (cfg : Cfg α) (st : St α) (i j : Id) : Task.handle j ∉ reactions cfg st i := by
   simp [reactions]
 
-theorem adoDeliver_nohandle (cfg : Cfg) (st : St α) (i : Id) (n : Notif α) (j : Id) :
+theorem adoDeliver_nohandle (cfg : Cfg α) (st : St α) (i : Id) (n : Notif α) (j : Id) :
     Task.handle j ∉ (adoDeliver cfg st i n).2.1 := by
   unfold adoDeliver
   dsimp only
   repeat' split
   all_goals simp [reactions]
 
-theorem subscribeCore_seen (cfg : Cfg) (st : St α) (j : Id) : (subscribeCore cfg st j).seen = st.seen := by
+theorem subscribeCore_seen (cfg : Cfg α) (st : St α) (j : Id) : (subscribeCore cfg st j).seen = st.seen := by
   have e : ∀ s : St α, (ensureActive s j).seen = s.seen := fun s => (ensureActive_frame s j).2.2.2.2.2.2.2.2.2.2.1
   have p : ∀ (s : St α) n, (soPush s j n).seen = s.seen := by
     intro s n; unfold soPush; split <;> rfl
@@ -323,7 +323,7 @@ theorem subscribeCore_seen (cfg : Cfg) (st : St α) (j : Id) : (subscribeCore cf
     · rw [p, pa]
     · rw [pa]
 
-theorem doSub_handle (cfg : Cfg) (st : St α) (who : Option Id) (j k : Id)
+theorem doSub_handle (cfg : Cfg α) (st : St α) (who : Option Id) (j k : Id)
     (h : Task.handle k ∈ (doSub cfg st who j).2) : (doSub cfg st who j).1.seen k = true := by
   unfold doSub at h ⊢
   split at h
@@ -339,7 +339,7 @@ theorem doSub_handle (cfg : Cfg) (st : St α) (who : Option Id) (j k : Id)
       · simp at h
     · simp at h
 
-theorem soRun_inv (cfg : Cfg) {st : St α} (i : Id) (h : RInv cfg st) : RInv cfg (soRun cfg st i) := by
+theorem soRun_inv (cfg : Cfg α) {st : St α} (i : Id) (h : RInv cfg st) : RInv cfg (soRun cfg st i) := by
   unfold soRun
   split
   · exact h.congr rfl rfl (Nat.le_refl _) rfl rfl rfl rfl rfl rfl rfl rfl rfl rfl rfl rfl rfl rfl rfl (fun _ h => h) (fun h => h)
@@ -370,18 +370,18 @@ theorem soRun_inv (cfg : Cfg) {st : St α} (i : Id) (h : RInv cfg st) : RInv cfg
       · exact absurd hj (hno j)
       · exact absurd hj (by simp)
 
-theorem pushAll_keeps {cfg : Cfg} {st : St α} (n : Notif α) (l : List Id) (h : RInv cfg st)
+theorem pushAll_keeps {cfg : Cfg α} {st : St α} (n : Notif α) (l : List Id) (h : RInv cfg st)
     (hl : ∀ i ∈ l, st.seen i = true) (hn : n.isTerminal = true → st.stopped = true) : Keeps cfg st (pushAll n l st) := by
   apply pushAll_ind (P := fun s => Keeps cfg st s) n l st ?_ (Keeps.refl h)
   intro s i hmem hk
   exact soPush_keeps i n hk (by rw [hk.seen]; exact hl i hmem) (by rw [hk.stopped]; exact hn)
 
-theorem ensureAll_keeps {cfg : Cfg} {st0 st : St α} (l : List Id) (h : Keeps cfg st0 st) : Keeps cfg st0 (ensureAll l st) := by
+theorem ensureAll_keeps {cfg : Cfg α} {st0 st : St α} (l : List Id) (h : Keeps cfg st0 st) : Keeps cfg st0 (ensureAll l st) := by
   apply ensureAll_ind (P := fun s => Keeps cfg st0 s) l st ?_ h
   intro s i _ hk
   exact ensureActive_keeps i hk
 
-theorem pushEnsureAll_keeps {cfg : Cfg} {st : St α} (n : Notif α) (l : List Id) (h : RInv cfg st)
+theorem pushEnsureAll_keeps {cfg : Cfg α} {st : St α} (n : Notif α) (l : List Id) (h : RInv cfg st)
     (hl : ∀ i ∈ l, st.seen i = true) (hn : n.isTerminal = true → st.stopped = true) :
     Keeps cfg st (pushEnsureAll n l st) := by
   apply pushEnsureAll_ind (P := fun s => Keeps cfg st s) n l st ?_ ?_ (Keeps.refl h)
@@ -400,10 +400,10 @@ theorem Sorted.append_one {l : List (Nat × α)} {x : Nat × α} (hs : Sorted l)
   subst hb'
   exact hb a ha
 
-theorem emit_inv (cfg : Cfg) {st : St α} (n : Notif α) (h : RInv cfg st) : RInv cfg (emit cfg st n) := by
+theorem emit_inv (cfg : Cfg α) {st : St α} (who : Option Id) (n : Notif α) (h : RInv cfg st) : RInv cfg (emit cfg st who n) := by
   unfold emit
   split
-  · exact raiseTo_inv none _ h
+  · exact raiseTo_inv who _ h
   · rename_i hdisp
     have hdisp : st.disposed = false := by simpa using hdisp
     split
@@ -431,10 +431,18 @@ theorem emit_inv (cfg : Cfg) {st : St α} (n : Notif α) (h : RInv cfg st) : RIn
           rinv_crush
         exact (pushEnsureAll_keeps (cfg := cfg) n st.observers (h2 _) h.obsSeen (fun _ => rfl)).inv
 
-theorem doTask_inv (cfg : Cfg) {st : St α} (t : Task) (h : RInv cfg st)
+theorem doTask_inv (cfg : Cfg α) {st : St α} (t : Task α) (h : RInv cfg st)
     (ht : ∀ j, t = .handle j → st.seen j = true) : RInv cfg (doTask cfg st t) := by
   cases t with
   | act who a =>
+    cases a with
+    | emit n =>
+      simp only [doTask]
+      refine emit_inv cfg who n ?_
+      cases who with
+      | none => exact h
+      | some i => exact h.congr rfl rfl (Nat.le_refl _) rfl rfl rfl rfl rfl rfl rfl rfl rfl rfl rfl rfl rfl rfl rfl (fun _ h => h) (fun h => h)
+    | base a =>
     cases a with
     | sub j =>
       have := doSub_inv cfg who j h
@@ -469,20 +477,20 @@ theorem doTask_inv (cfg : Cfg) {st : St α} (t : Task) (h : RInv cfg st)
     refine ⟨?_,?_,?_,?_,?_,?_,?_,?_,?_,?_,?_,?_,?_⟩
     rinv_crush
 
-theorem doCall_inv (cfg : Cfg) {st : St α} (k : Nat) (c : Call α) (h : RInv cfg st) (_hag : st.agenda = []) :
+theorem doCall_inv (cfg : Cfg α) {st : St α} (k : Nat) (c : Call α) (h : RInv cfg st) (_hag : st.agenda = []) :
     RInv cfg (doCall cfg st k c) := by
-  have h2 : RInv cfg { st with curCall := k, evs := st.evs ++ [EvR.call k st.clock st.observers.length] } :=
+  have h2 : RInv cfg { st with curCall := k, evs := st.evs ++ [EvR.call k st.clock st.observers.length c] } :=
     h.congr rfl rfl (Nat.le_refl _) rfl rfl rfl rfl rfl rfl rfl rfl rfl rfl rfl rfl rfl rfl rfl (fun _ h => h) (fun h => h)
   unfold doCall
   cases c with
-  | next v => exact emit_inv cfg _ h2
-  | error e => exact emit_inv cfg _ h2
-  | completed => exact emit_inv cfg _ h2
+  | next v => exact emit_inv cfg none _ h2
+  | error e => exact emit_inv cfg none _ h2
+  | completed => exact emit_inv cfg none _ h2
   | sub i => exact h2.congr rfl rfl (Nat.le_refl _) rfl rfl rfl rfl rfl rfl rfl rfl rfl rfl rfl rfl rfl rfl rfl (by simp) (fun h => h)
   | unsub i => exact h2.congr rfl rfl (Nat.le_refl _) rfl rfl rfl rfl rfl rfl rfl rfl rfl rfl rfl rfl rfl rfl rfl (by simp) (fun h => h)
   | dispose => exact h2.congr rfl rfl (Nat.le_refl _) rfl rfl rfl rfl rfl rfl rfl rfl rfl rfl rfl rfl rfl rfl rfl (by simp) (fun h => h)
 
-theorem advance_inv (cfg : Cfg) {st : St α} (due : Nat) (h : RInv cfg st) : RInv cfg (advance st due) := by
+theorem advance_inv (cfg : Cfg α) {st : St α} (due : Nat) (h : RInv cfg st) : RInv cfg (advance st due) := by
   unfold advance
   dsimp only
   repeat' split
@@ -494,7 +502,7 @@ theorem advance_agenda (st : St α) (due : Nat) : (advance st due).agenda = st.a
   repeat' split
   all_goals rfl
 
-theorem invoke_inv (cfg : Cfg) {st : St α} (it : Item α) (h : RInv cfg st) (hag : st.agenda = []) :
+theorem invoke_inv (cfg : Cfg α) {st : St α} (it : Item α) (h : RInv cfg st) (hag : st.agenda = []) :
     RInv cfg (invoke cfg st it) := by
   unfold invoke
   split
@@ -504,7 +512,7 @@ theorem invoke_inv (cfg : Cfg) {st : St α} (it : Item α) (h : RInv cfg st) (ha
     · exact soRun_inv cfg _ h
 
 /-- **Every step of the scheduler loop preserves the invariant.** -/
-theorem step_inv (cfg : Cfg) {st : St α} (h : RInv cfg st) : RInv cfg (step cfg st) := by
+theorem step_inv (cfg : Cfg α) {st : St α} (h : RInv cfg st) : RInv cfg (step cfg st) := by
   unfold step
   split
   · exact h
@@ -522,7 +530,7 @@ theorem step_inv (cfg : Cfg) {st : St α} (h : RInv cfg st) : RInv cfg (step cfg
           h.congr rfl rfl (Nat.le_refl _) rfl rfl rfl rfl rfl rfl rfl rfl rfl rfl rfl rfl rfl rfl rfl (fun _ h => h) (fun h => h)
         exact invoke_inv cfg it (advance_inv cfg it.due h2) (by rw [advance_agenda]; exact hag)
 
-theorem schedule_go_inv (cfg : Cfg) (cs : List (Nat × Call α)) (k : Nat) (st : St α) (h : RInv cfg st) :
+theorem schedule_go_inv (cfg : Cfg α) (cs : List (Nat × Call α)) (k : Nat) (st : St α) (h : RInv cfg st) :
     RInv cfg (schedule.go cs k st) := by
   induction cs generalizing k st with
   | nil => exact h
@@ -531,12 +539,12 @@ theorem schedule_go_inv (cfg : Cfg) (cs : List (Nat × Call α)) (k : Nat) (st :
     simp only [schedule.go]
     exact ih _ _ (h.congr rfl rfl (Nat.le_refl _) rfl rfl rfl rfl rfl rfl rfl rfl rfl rfl rfl rfl rfl rfl rfl (fun _ h => h) (fun h => h))
 
-theorem init_inv (cfg : Cfg) (calls : List (Nat × Call α)) : RInv cfg (schedule calls) := by
+theorem init_inv (cfg : Cfg α) (calls : List (Nat × Call α)) : RInv cfg (schedule calls) := by
   apply schedule_go_inv
   refine ⟨?_,?_,?_,?_,?_,?_,?_,?_,?_,?_,?_,?_,?_⟩
   all_goals simp [Sorted, IsRetained, Good]
 
-theorem reach_inv {cfg : Cfg} {calls : List (Nat × Call α)} {st : St α} (h : Reach cfg calls st) : RInv cfg st := by
+theorem reach_inv {cfg : Cfg α} {calls : List (Nat × Call α)} {st : St α} (h : Reach cfg calls st) : RInv cfg st := by
   induction h with
   | init => exact init_inv cfg calls
   | step _ ih => exact step_inv cfg ih
